@@ -35,6 +35,7 @@ func runC03(c *Check, tier string) {
 	ruleAdjacencyNotAliased(c, "R03f")
 	ruleNoSpawnInsideSlot(c, "R03g")
 	ruleExecutedCountsAsLoaded(c, "R03h")
+	ruleRerunOnlyWhenNeeded(c, "R03i")
 }
 
 // spawnedAt: the functions a site starts on another goroutine (go statement, or a function value handed to an
